@@ -45,6 +45,10 @@ claimed = {
    text="Every control cycle of full-range fans with the direct algorithm (request = curve value) is compared with the reference nearest-supported-input computation, over configured maps (sparse, plateaus) and maps produced by the real sweep against quantising drivers; the decision not to write is judged too.",
    note=L1NOTE+"Honest scope: the relation is a pure function; simulation contributes swept maps, persistence and the write-skip logic. Requests outside 0..255 are unreachable through the running system and not covered.",
    tech="deterministic simulation as host; reference-model comparison per cycle"),
+ "C13": dict(cat="exploration", ref="§3/C13",
+   text="Start-up of hwmon fans by the real controller over arbitrary stored curve data and all combinations of configured min/start/max x neverStop, data measured by the real initialisation sequence against a simulated fan plant (virtual time), and repeated attachment of different data to the running fan; limits read through the public getters are compared with the reference derivation after start-up, at every cycle end and after each attach; empty data must make start-up fail.",
+   note="Honest scope: mostly a state machine over data; simulation contributes measured data (init sequence in virtual time), persistence and the restart/re-attach path. All-zero data: only range and configured-wins asserted; the measured minimum is not asserted.",
+   tech="deterministic simulation (init sequence against a plant in virtual time) + reference limit derivation"),
 }
 checks = []
 for p in props:
